@@ -1,14 +1,16 @@
 #!/bin/sh
 # Regenerates the consensus-profile overlay (map ranges, wall-clock reads, go statements of consensus packages put behind
-# package vrt's environment hooks) from /repo's current working tree and builds /verif/bin/vcheck-i with it.
+# package vrt's environment hooks) from /repo's current working tree and builds $VERIF_ROOT/bin/vcheck-i with it.
 export GOFLAGS=-mod=mod GOPROXY=off GOSUMDB=off GOTOOLCHAIN=local
-cd /verif/harness || exit 2
-mkdir -p /verif/bin /verif/.work
+: "${VERIF_ROOT:=$(cd "$(dirname "$0")/.." && pwd)}"
+export VERIF_ROOT
+cd $VERIF_ROOT/harness || exit 2
+mkdir -p $VERIF_ROOT/bin $VERIF_ROOT/.work
 cmp -s /repo/go.sum go.sum || cp /repo/go.sum go.sum
-go build -o /verif/bin/instr ./cmd/instr || exit 2
-OV=/verif/.work/ov-cons
+go build -o $VERIF_ROOT/bin/instr ./cmd/instr || exit 2
+OV=$VERIF_ROOT/.work/ov-cons
 rm -rf "$OV" && mkdir -p "$OV"
 PKGS=$(cd /repo && go list ./x/... ./app/... ./types/... ./utils/... ./crypto/... ./ethereum/... | grep -v -e '/client/cli$' -e '/types/tests$' -e '/upgrades/v13_sample$' | tr '\n' ' ')
 [ -n "$PKGS" ] || { echo "HARNESS: go list of /repo failed" >&2; exit 2; }
-/verif/bin/instr -out "$OV" -profile consensus $PKGS >"$OV/instr.log" 2>&1 || { cat "$OV/instr.log" >&2; exit 2; }
-go build -tags verif -overlay "$OV/overlay.json" -o /verif/bin/vcheck-i ./cmd/vcheck || exit 2
+$VERIF_ROOT/bin/instr -out "$OV" -profile consensus $PKGS >"$OV/instr.log" 2>&1 || { cat "$OV/instr.log" >&2; exit 2; }
+go build -tags verif -overlay "$OV/overlay.json" -o $VERIF_ROOT/bin/vcheck-i ./cmd/vcheck || exit 2
